@@ -1,6 +1,6 @@
 (* C13 — Body temporal formulas are pure observers of the trace.  Property theorems only. *)
 From Coq Require Import List Bool Arith ZArith Lia.
-Require Import HT Ext BodyTheoryCore.
+Require Import HT Ext BodyTheoryCore GenPrelude TheoryPrelude FromTheory Leaf_theory.
 (* Frozen choice: a program P extended with choice atoms X (the Tseitin atoms) and negated constraints C (the clauses)
    has T as equilibrium model iff T satisfies P, violates no constraint, and no smaller H that AGREES WITH T ON X
    satisfies P: the auxiliary atoms never take part in minimisation. *)
@@ -16,5 +16,19 @@ Theorem C13_unique_extension : forall (A : Type) (A_eq_dec : forall a b : A, {a 
   (ok_cls A T (vstar A h T s) s /\ ok_ext A A_eq_dec (vstar A h T s) s) /\
   forall v, ok_cls A T v s -> ok_ext A A_eq_dec v s -> forall n, n < nxt A s -> v n = vstar A h T s n.
 Proof. intros A D h s T I G. split; [exact (C03_exists A D h s T I G)|intros v Hc He; exact (C03_unique A D h s T v I G Hc He)]. Qed.
+(* tie to the source: the clause groups REGENERATED from theory/body.py are definitional - whatever values the argument
+   literals have, exactly one value of the node's own literal violates no constraint (so a formula literal is a choice atom
+   fully determined by its constraints: it can neither destroy nor duplicate an answer set) *)
+Definition upd (v : lvar -> bool) (b : bool) : lvar -> bool := fun x => match x with Llit => b | _ => v x end.
+Theorem C13_temporal_clauses_definitional : forall op has v, exists b, forall b', holds (upd v b') (tel_clauses_gen op has) = Bool.eqb b' b.
+Proof.
+  intros op has v. exists (tel_spec op has (v Llhs) (v Lrhs) (v Lpre)). intros b'. rewrite tel_clauses_spec. reflexivity.
+Qed.
+Theorem C13_boolean_clauses_definitional : forall op v, exists b, forall b', holds (upd v b') (boolean_clauses_gen op) = Bool.eqb b' b.
+Proof.
+  intros op v. exists (bool_spec op (v Llhs) (v Lrhs)). intros b'. rewrite boolean_clauses_spec. reflexivity.
+Qed.
 Print Assumptions C13_frozen_choice.
 Print Assumptions C13_unique_extension.
+Print Assumptions C13_temporal_clauses_definitional.
+Print Assumptions C13_boolean_clauses_definitional.
